@@ -116,7 +116,7 @@ def units():
             U.append({"name": "%s.%s2%s_array.elem" % (law, law, h), "props": ["C02"], "template": "units/gen_g711.py",
                       "harness_text": HEAD % dict(law=law) + """
 void h_unit (void)
-{	unsigned char buffer [1] ; %(T)s ptr [1] ; %(T)s normfact ; unsigned char nd ;
+{	unsigned char buffer [1] ; %(T)s ptr [1] ; INPUT (%(T)s, normfact) ; INPUT (unsigned char, nd) ;
 	buffer [0] = nd ;
 	__CPROVER_assume (normfact > 0 && normfact <= 1) ;
 	%(law)s2%(h)s_array (buffer, 1, ptr, normfact) ;
@@ -124,6 +124,7 @@ void h_unit (void)
 	CANARY () ;
 }
 """ % dict(law=law, h=h, T=CT[h]), "entry": "h_unit", "dfcc": False, "function": "%s.c:%s2%s_array" % (law, law, h),
+                      "self_replay": True, "inputs": ["nd", "normfact"], "replay_link": "all", "replay_exclude": [law + ".c"],
                       "backend": "cvc5", "cbmc_flags": ["--unwind", "2"], "drop_flags": ["--slice-formula"], "timeout": 300, "tier": "quick"})
         # encoders
         U.append(kunit(law, "s2%s_array" % law, "const short *ptr, int count, unsigned char *buffer", "ptr", "buffer", "short", "unsigned char",
